@@ -1,3 +1,4 @@
+#![allow(dead_code)]
 mod gen;
 mod hooks;
 mod model;
